@@ -56,7 +56,7 @@ func init() {
 	prop("C17", []string{"R33", "R34", "R19", "R4", "R10", "R5", "R46", "R1r", "R74", "R94", "R95"},
 		"the 8-bit encoding cannot overflow into null or wrap (R33, R34, R19); undeclared values are rejected on every construction path (R34: minting is dominated by !strict and the cardinality guard); ordering comparisons and Sort use rank = declared position (R4, R10); filtering a strict column against an undeclared constant is an error (R46); null stays distinct (R5 polarity, R10).",
 		"in/like bitset contents beyond R19's layout and R35.")
-	prop("C18", []string{"R35", "R59", "R57", "R33", "R3", "R42", "R74"},
+	prop("C18", []string{"R35", "R59", "R57", "R33", "R3", "R42", "R74", "R101"},
 		"matcher selection and anchoring for all 16 pattern classes, both column types agreeing (R35); the custom upper-casing never stores a non-ASCII rune as a single byte (R33); nulls never reach the matcher (R35 dominance; enum matching ranges over values).",
 		"agreement of the rest of the ToUpper copy with strings.ToUpper (buffer growth, length-changing code points); regular-expression assembly.")
 	prop("C19", []string{"R6", "R36", "R25", "R29", "R31", "R41", "R48", "R2c", "R1w", "R1r", "R71", "R83", "R90", "R91", "R93"},
